@@ -15,6 +15,20 @@ for h in list(HARNESSES):
         g.defines = dict(h.defines); g.defines["WPTR_BACK"] = 1
         g.tiers = ("quick", "thorough") if h.name.split(".")[2] not in ("caf", "nist", "paf", "ircam", "mat5", "pvf", "wavex", "rf64") else ("thorough",)
         HARNESSES.append(g)
+# writer-side frame condition (file position restored, length kept) for the containers whose read-back does not finish
+# within budget: the same harness, stopped after the header update
+for h in _load("C04").rt_harnesses(update_now=True, only=["wavex", "rf64"]):    # (caf, nist, paf, mat5, pvf, ircam: no verdict in 300 s even writer-side)
+    if ".ch1.n3" in h.name or (".ch1.n1" in h.name and "sr" not in h.name.split(".n1")[-1].replace(".sr44100", "")):
+        for back in (0, 1):
+            g = copy.copy(h)
+            g.name = h.name.replace("rt.upd.", "hdrupd.") + (".wptr0" if back else "")
+            g.defines = dict(h.defines); g.defines["WRITE_ONLY"] = 1
+            if back: g.defines["WPTR_BACK"] = 1
+            g.tiers = ("quick", "thorough")
+            g.timeout = 300
+            g.probe_for = None
+            g.bounds = "writer side only (header update: position restored, length kept); " + h.bounds
+            HARNESSES.append(g)
 # the wrappers' part: header rewritten after every write iff auto-update is on, frame count/dataend bookkeeping (C05 wrappers)
 HARNESSES += [h for h in _load("C05").HARNESSES if h.name.startswith("wrap.write") and ".ch2" in h.name]
 HARNESSES += _load("blk_common").sds_harnesses(("SEL_HEADER",))
